@@ -67,6 +67,25 @@ class TimingProbe(Probe):
                 depth[id(o)] = d
                 return d
             self.pre = (nodes, {id(o): dep(o) for o in nodes})
+            # the explicit relation the new operation is created with: (reference object | None, relation type)
+            self.expect = None
+            rel = cmd[9]
+            if rel is not None and cmd[2] not in progs.NO_RELATION_ARG:
+                try:
+                    if isinstance(rel[0], list):
+                        grp = [run.handles[h] for h in rel[0]]
+                        latest = grp[0]
+                        for o in grp:
+                            if o.end_time > latest.end_time:
+                                latest = o
+                        self.expect = (latest, a.RT[rel[1]])
+                    elif rel[1] == 'SAME':
+                        lk = run.handles[rel[0]].relation_link
+                        self.expect = (lk.reference_node, lk.relation_type)
+                    else:
+                        self.expect = (run.handles[rel[0]], a.RT[rel[1]])
+                except RecursionError:
+                    self.expect = None
 
     def after(self, run, i, cmd, ans):
         fails = []
@@ -74,10 +93,9 @@ class TimingProbe(Probe):
         if cmd[0] == 'op' and self.pre is not None:
             nodes, depth = self.pre
             op = run.handles[-1]
-            rel = cmd[9]
             explicit_in_graph = False
-            if rel is not None and cmd[2] not in progs.NO_RELATION_ARG:
-                target = run.handles[rel[0]]
+            if self.expect is not None and self.expect[0] is not None:
+                target = self.expect[0]
                 explicit_in_graph = any(target is o for o in nodes)
             if not explicit_in_graph:
                 chs = op.channel_identifiers
@@ -95,7 +113,7 @@ class TimingProbe(Probe):
                         fails.append({'what': 'implicit placement: relation type is not FOLLOWED_BY'})
             else:
                 link = op.relation_link
-                if link.reference_node is not run.handles[rel[0]] or link.relation_type != a.RT[rel[1]]:
+                if link.reference_node is not self.expect[0] or link.relation_type != self.expect[1]:
                     fails.append({'what': 'explicit relation was not kept'})
         if cmd[0] == 'list' and ans not in (None, 'undef') and run.last_ops is not None:
             for k, o in enumerate(run.last_ops):
